@@ -306,3 +306,38 @@ def run_e(prog, res, floor=1):
                                     "'limit reached' answer of the sub-call is taken for 'equal'" %
                                     (fn.name, pname, pname, pname), unit=fn.unit.display))
     return stat
+
+
+def run_f(prog, res, floor=1):
+    """equal? and the hash walk the same slots: both compute how many slots of an object take part from the type
+    table, and the columns they read for that (`field_base`, `field_len_*`, `field_eq_len_base`) must be the same
+    set - hashing a slot that equal? ignores (the source annotation of a pair, say) gives equal? keys different
+    hashes"""
+    from extract import AnalysisBroken
+    stat = res.stat("C15.f", "hash_one and sexp_equalp_bound read the same type-table columns to decide which slots take part",
+                    floor=floor)
+    cols = {}
+    for name in ("hash_one", "sexp_equalp_bound"):
+        fn = prog.func(name)
+        if fn is None:
+            raise AnalysisBroken("anchor vanished: %s" % name)
+        fs = set()
+        for i, nd in enumerate(fn.nodes):
+            if nd["k"] == "mem":
+                _r, p = fn.mempath(i)
+                if len(p) >= 3 and p[:2] == ["value", "type"] and p[2].startswith("field_"):
+                    fs.add(p[2])
+        cols[name] = (fn, fs)
+    stat.sites += 2
+    stat.obligations += 1
+    h, e = cols["hash_one"][1], cols["sexp_equalp_bound"][1]
+    if h == e and h:
+        stat.discharged += 1
+        stat.sample({"columns": sorted(h)})
+    else:
+        fn = cols["hash_one"][0]
+        res.add(Finding("C15", "C15.f.slot-columns-differ", "hash_one", "type columns", fn.where(),
+                        "hash_one decides which slots of an object it hashes from the type columns %s, sexp_equalp_bound which slots it "
+                        "compares from %s: a slot that only one of them visits makes equal? objects hash differently (or unequal "
+                        "ones collide systematically)" % (sorted(h), sorted(e)), unit=fn.unit.display))
+    return stat
